@@ -137,7 +137,7 @@ Feed(t) ==
   /\ ps.status = "more"
   /\ Len(hist) < MaxLen
   /\ hist' = Append(hist, t)
-  /\ ps' = PStep(ps, t)
+  /\ ps' = PStepI(ps, t)
   /\ UNCHANGED <<sid, pcfg, root0, done>>
 
 (* the text ends here: end of input is fed (unless the parse already failed) *)
